@@ -114,6 +114,71 @@ def render(sites):
     return '\n'.join(L) + '\n'
 
 
+COMMON_RS = 'file/src/common/mod.rs'
+PARENT_CREATED = ['if let Some(parent) = xvc_path.parents().first()', 'if !parent_dir.exists()']
+
+
+def fn_body(code, name, rel):
+    """(start, end) of the body of `fn name`, braces matched"""
+    m = re.search(r'\bfn\s+' + name + r'\s*\(', code)
+    if not m:
+        raise RuntimeError(f'translator anchor fn {name} not found in {rel}')
+    # the first `{` after the signature: skip the parameter list and the return type
+    depth_par, j = 1, m.end()
+    while depth_par:
+        depth_par += {'(': 1, ')': -1}.get(code[j], 0); j += 1
+    i = code.index('{', j)
+    depth, k = 0, i
+    while True:
+        depth += {'{': 1, '}': -1}.get(code[k], 0)
+        if depth == 0: return i + 1, k
+        k += 1
+
+
+def extract_ignore_sends():
+    """every `<ignore sender>.send(…)` of recheck_from_cache: (kind, guard, enclosing block headers, line)"""
+    code = strip_comments(open(os.path.join(REPO, COMMON_RS)).read())
+    a, b = fn_body(code, 'recheck_from_cache', COMMON_RS)
+    sig = code[code.rfind('fn recheck_from_cache', 0, a):a]
+    pm = re.search(r'(\w+)\s*:\s*&\s*Sender<IgnoreOp>', sig)
+    if not pm:
+        raise RuntimeError(f'translator: recheck_from_cache has no `&Sender<IgnoreOp>` parameter in {COMMON_RS}')
+    body = code[a:b]
+    sites = []
+    for m in re.finditer(r'\b' + pm.group(1) + r'\s*\.\s*send\s*\(', body):
+        depth, k = 1, m.end()
+        while depth:
+            depth += {'(': 1, ')': -1}.get(body[k], 0); k += 1
+        arg = ' '.join(body[m.end():k - 1].split())
+        lit = re.match(r'Some\(\s*IgnoreOperation::(IgnoreDir|IgnoreFile)\b', arg)
+        kind = {'IgnoreDir': 'ignoreDir', 'IgnoreFile': 'ignoreFile'}[lit.group(1)] if lit else 'computed'
+        # enclosing blocks: headers of the `{` that are open at the site
+        stack, hdr_start = [], 0
+        for i, ch in enumerate(body[:m.start()]):
+            if ch == '{':
+                stack.append(' '.join(body[hdr_start:i].split())); hdr_start = i + 1
+            elif ch == '}':
+                if stack: stack.pop()
+                hdr_start = i + 1
+            elif ch == ';':
+                hdr_start = i + 1
+        guard = 'always' if not stack else 'parentCreated' if stack == PARENT_CREATED else 'other'
+        sites.append({'kind': kind, 'guard': guard, 'enclosing': stack, 'argument': arg[:80], 'line': code.count('\n', 0, a + m.start()) + 1})
+    if not sites:
+        raise RuntimeError(f'translator: no `{pm.group(1)}.send(` in recheck_from_cache ({COMMON_RS})')
+    return sites
+
+
+def render_ignore_sends(sites):
+    L = ['import XvcIgnore.IgnoreOps',
+         '/-! GENERATED by lib/c16_extract.py from `recheck_from_cache` in file/src/common/mod.rs on every run of the C16 check — do not edit.',
+         '    Every `ignore_writer.send(…)` of the function: which `IgnoreOperation` it sends and under which enclosing condition. -/',
+         'namespace Ign.Gen', 'open Ign.Git', '', 'def RECHECK_IGNORE_SENDS : List SendSite := [']
+    L += [f'  ⟨.{s["kind"]}, .{s["guard"]}⟩' + (',' if i < len(sites) - 1 else '') for i, s in enumerate(sites)]
+    L += [']', '', 'end Ign.Gen']
+    return '\n'.join(L) + '\n'
+
+
 HASHALG_RS = 'core/src/types/hashalgorithm.rs'
 
 
@@ -142,6 +207,11 @@ def render_hash_algorithms(algs):
 
 
 def run(chk=None):
+    sends = extract_ignore_sends()
+    spath = os.path.join(LEAN_DIR, 'XvcIgnore', 'XvcIgnore', 'Gen', 'IgnoreSends.lean')
+    schanged = write_if_changed(spath, render_ignore_sends(sends))
+    if chk is not None:
+        chk.extra['translator_ignore_sends'] = {'generated': os.path.relpath(spath, os.path.dirname(LEAN_DIR)), 'changed': schanged, 'send_sites': sends}
     algs = extract_hash_algorithms()
     apath = os.path.join(LEAN_DIR, 'XvcIgnore', 'XvcIgnore', 'Gen', 'HashAlgorithms.lean')
     achanged = write_if_changed(apath, render_hash_algorithms(algs))
